@@ -2,12 +2,12 @@
 import re
 import cfgmut
 
-DEFERRED = re.compile(rb'^(tap-dance(-eager)?|tap-hold[a-z-]*|one-shot[a-z-]*|defvirtualkeys|deffakekeys|defchords|defchordsv2|defseq)$')
+DEFERRED = re.compile(rb'^(tap-dance(-eager)?|tap-hold[a-z-]*|one-shot[a-z-]*|switch|defvirtualkeys|deffakekeys|defchords|defchordsv2|defseq)$')
 
 
 def rpt_any_deferred(cfg: str) -> bool:
-    """`rpt-any` occurs where it runs later than the press that selected it: inside a tap-dance / tap-hold list, a virtual key
-    definition or a chord table.  There the action it repeats can be the very action that scheduled it."""
+    """`rpt-any` occurs where it runs later than the press that selected it: inside a tap-dance / tap-hold list, a switch case (performed from the
+    action queue in a later tick), a virtual key definition or a chord table.  There the action it repeats can be the very action that scheduled it."""
     b = cfg.encode()
     atoms, lists = cfgmut.subexprs(b)
     heads = {}
